@@ -102,7 +102,8 @@ CLAIMED = {
               'permuting loop; plus an independent oracle.' 
               'Also one TaskDoneCallback shared by tasks of two threads with their own event loops: thread A parked before every bytecode of _callback while thread B registers / is called back; close() must neither return early nor hang (the model\'s labels are atomic, which is exactly what this validates).' 
               'Also callbacks raising exceptions that are not Exceptions, and the consequence named by the property — every trace that starts ends — on programs whose threads/tasks end by return, raise, cancellation, being left pending or not being joined.' 
-              ' Also the union helper (ThreadTaskDoneCallback): threads registered after close()/aclose() has begun by a still-running registered task or thread — each is called back exactly once before close returns.'),
+              ' Also the union helper (ThreadTaskDoneCallback): threads registered after close()/aclose() has begun by a still-running registered task or thread — each is called back exactly once before close returns.' 
+              " Model D1t (the exit of the child's plugin context on top of the trace model D1: it waits for every other trace, afterwards nothing is numbered or started and only the main thread's trace can still end) with theorems close_waits, closed_stays, no_trace_starts_after_close, after_close_only_a_trace_end, every_started_trace_ended — the property's last sentence for every execution of the model — tied to the code by running the event streams of completed in-process runs through the compiled model with the exit placed as late as possible."),
         design='§6 C18, §5 model I',
         note=COMMON_NOTE + 'GIL switch points other than the forced ones are whatever CPython produces; registrations after close() are outside the '
              'documented contract. Two defects found and fixed here: F-I1 (lost registration) and F-I2 (exit-check read order).',
